@@ -1,12 +1,74 @@
 import Driver.Tok
-/- line-protocol handlers of this area; see docs/AGENT_GUIDE.md -/
+import BpModel.Casing
+import BpModel.Naming
+import BpModel.Importing
+/- line-protocol handlers of the area "Casing" (C19: name mapping, C13: type references).
+   Strings travel as `=<text>` (so that the empty string is the token `=`); they never
+   contain spaces. -/
 namespace Drv
+open Bp.Casing Bp.Naming Bp.Importing
 
 structure CasingSt where
   dummy : Unit := ()
 
-def handleCasing (st : CasingSt) (_toks : List String) : Option (CasingSt × String) :=
-  let _ := st
-  none
+def strArg (t : String) : Option (List Char) :=
+  match t.toList with
+  | '=' :: r => some r
+  | _ => none
+
+def strOut (s : List Char) : String := "=" ++ String.ofList s
+
+def boolOut (b : Bool) : String := if b then "1" else "0"
+
+def handleCasing (st : CasingSt) (toks : List String) : Option (CasingSt × String) :=
+  match toks with
+  | ["SNAKE", s] => (strArg s).map fun s => (st, strOut (snake s))
+  | ["PASCAL", s] => (strArg s).map fun s => (st, strOut (pascal s))
+  | ["CAMEL", s] => (strArg s).map fun s => (st, strOut (camel s))
+  | ["SANITIZE", s] => (strArg s).map fun s => (st, strOut (sanitize s))
+  | ["SAFE", s] => (strArg s).map fun s => (st, strOut (safeSnake s))
+  | ["CLS", s] => (strArg s).map fun s => (st, strOut (pythonizeClassName s))
+  | ["FLD", s] => (strArg s).map fun s => (st, strOut (pythonizeFieldName s))
+  | ["MTH", s] => (strArg s).map fun s => (st, strOut (pythonizeMethodName s))
+  | ["MEMBER", s, e] => do
+    let s ← strArg s
+    let e ← strArg e
+    some (st, strOut (pythonizeEnumMemberName s e))
+  | ["TOKENS", s] => (strArg s).map fun s => (st, String.intercalate " " ((tokens s).map strOut))
+  -- the keys to_dict emits for the Python field `f` and the fields from_dict maps them to
+  | ["KEYS", f] => (strArg f).map fun f =>
+      (st, String.intercalate " " [strOut (keyCamel f), strOut (fieldOfKey (keyCamel f)),
+                                   strOut (keySnake f), strOut (fieldOfKey (keySnake f))])
+  -- guards of the partial theorems of Props/C19.lean
+  | ["WF", "alpha2", s] => (strArg s).map fun s => (st, boolOut (allWordsAlpha2 s))
+  | ["WF", "classguard", s] => (strArg s).map fun s => (st, boolOut (classNameGuard s))
+  -- C13
+  | ["PARSE", s] => (strArg s).map fun s =>
+      let (p, n) := parseSourceTypeName s
+      (st, strOut p ++ " " ++ strOut n)
+  | ["TYPEREF", pkg, src, unwrap, pyd] => do
+    let pkg ← strArg pkg
+    let src ← strArg src
+    let r := getTypeReference pkg src (unwrap == "1") (pyd == "1")
+    some (st, String.ofList r.ref.render ++ "|" ++ String.ofList r.imp.render)
+  | ["RESOLVE", pkg, src, unwrap, pyd] => do
+    let pkg ← strArg pkg
+    let src ← strArg src
+    let cur := splitPkg pkg
+    let r := getTypeReference pkg src (unwrap == "1") (pyd == "1")
+    let b := r.imp.bind cur
+    let bn := match b with
+      | some (a, _) => strOut a
+      | none => "-"
+    let d := match denote cur b r.ref with
+      | some (.gen p, c) => "gen " ++ strOut (dotted p) ++ " " ++ strOut c
+      | some (.abs p, c) => "abs " ++ strOut (dotted p) ++ " " ++ strOut c
+      | none => "none"
+    some (st, bn ++ " " ++ d)
+  | ["CLASSOF", ty] => (strArg ty).map fun ty => (st, strOut (classOf (splitOn '.' ty)))
+  | ["WF", "pkgok", p] => (strArg p).map fun p => (st, boolOut (pkgOk (splitPkg p)))
+  | ["WF", "typeok", p] => (strArg p).map fun p => (st, boolOut (typeOk (splitPkg p)))
+  | ["WF", "simplepkg", p] => (strArg p).map fun p => (st, boolOut (simplePkg (splitPkg p)))
+  | _ => none
 
 end Drv
